@@ -211,6 +211,21 @@ func (e *Exec) auditFail(props []string, rule, msg string, feats map[string]stri
 	e.fail(props, rule, msg, feats)
 }
 
+// withProps returns props plus the given ones, without duplicates.
+func withProps(props []string, more ...string) []string {
+	out := append([]string{}, props...)
+	for _, m := range more {
+		has := false
+		for _, p := range out {
+			has = has || p == m
+		}
+		if !has {
+			out = append(out, m)
+		}
+	}
+	return out
+}
+
 func (e *Exec) probe(name string)     { e.Stats.Probes[name]++ }
 func (e *Exec) checked(family string) { e.Stats.Checks[family]++ }
 
@@ -259,6 +274,8 @@ func (e *Exec) invoke(primary bool, f func() error) (err error) {
 		}
 		e.Ctl.ClearPlan()
 	}()
+	callBegin()
+	defer callEnd()
 	err = f()
 	if primary {
 		e.targetFCalls = e.Ctl.FCalls
@@ -656,7 +673,7 @@ func (e *Exec) compareAll(target string, targetProps []string, what string) {
 			case typeOnly:
 				e.fail([]string{"C11"}, "C11/type-or-zone", fmt.Sprintf("after %s: collection %q: values equal but Go type/zone differs: %s", what, name, diff), feats)
 			case name == target:
-				e.fail(append(append([]string{}, targetProps...), "C11"), "state-divergence", fmt.Sprintf("after %s: collection %q differs from the model: %s", what, name, diff), feats)
+				e.fail(withProps(targetProps, "C11", "C01"), "state-divergence", fmt.Sprintf("after %s: collection %q differs from the model: %s", what, name, diff), feats)
 			default:
 				props := []string{"C13", "C12"}
 				if e.cur != nil && (e.cur.K == "DropCollection" || e.cur.K == "DropIndex") {
@@ -1401,7 +1418,7 @@ func (e *Exec) afterWrite(target string, targetProps []string, what string) {
 			if typeOnly {
 				e.fail([]string{"C11"}, "C11/type-or-zone", fmt.Sprintf("after %s: %s", what, diff), e.collFeatures(target))
 			} else {
-				e.fail(append(append([]string{}, targetProps...), "C11"), "state-divergence", fmt.Sprintf("after %s: collection %q differs from the model: %s", what, target, diff), e.collFeatures(target))
+				e.fail(withProps(targetProps, "C11", "C01"), "state-divergence", fmt.Sprintf("after %s: collection %q differs from the model: %s", what, target, diff), e.collFeatures(target))
 			}
 		}
 	}
